@@ -57,6 +57,12 @@ func typeID(t reflect.Type) int {
 
 // ---------------------------------------------------------------- capacities
 func capOf(t reflect.Type, depth int) int {
+	if depth >= 3 { // recursive types (http.Request -> *Response -> *Request ...): zero value only below
+		switch t.Kind() {
+		case reflect.Ptr, reflect.Array, reflect.Map, reflect.Struct:
+			return 1
+		}
+	}
 	switch t.Kind() {
 	case reflect.Bool:
 		return 2
@@ -264,10 +270,10 @@ func dump(t reflect.Type, v reflect.Value) interface{} {
 	return map[string]interface{}{"?": t.String()}
 }
 
-func dumpArgs(ft reflect.Type, args []reflect.Value) []interface{} {
+func dumpArgs(ft reflect.Type, args []reflect.Value, spread bool) []interface{} {
 	out := []interface{}{}
 	for i, a := range args {
-		if ft.IsVariadic() && i == ft.NumIn()-1 {
+		if spread && i == ft.NumIn()-1 {
 			l := []interface{}{}
 			for j := 0; j < a.Len(); j++ {
 				l = append(l, dump(ft.In(i).Elem(), a.Index(j)))
@@ -429,9 +435,9 @@ type runner struct {
 
 // mkFunc builds a callback / provider of func type ft that records its arguments and
 // returns the scripted constants.
-func (r *runner) mkFunc(ft reflect.Type, id int, rets []Val) reflect.Value {
+func (r *runner) mkFunc(ft reflect.Type, id int, rets []Val, spread bool) reflect.Value {
 	return reflect.MakeFunc(ft, func(args []reflect.Value) []reflect.Value {
-		r.events = append(r.events, event{"e": "cb", "f": id, "args": dumpArgs(ft, args)})
+		r.events = append(r.events, event{"e": "cb", "f": id, "args": dumpArgs(ft, args, spread || ft.IsVariadic())})
 		out := make([]reflect.Value, ft.NumOut())
 		for i := range out {
 			var v Val
@@ -538,21 +544,21 @@ func (r *runner) step(s Step) (o Obs) {
 				rm.Call(vs)
 			case "run":
 				rm := call.MethodByName("Run")
-				rm.Call([]reflect.Value{r.mkFunc(rm.Type().In(0), su.F, nil)})
+				rm.Call([]reflect.Value{r.mkFunc(rm.Type().In(0), su.F, nil, false)})
 			case "runandreturn":
 				rm := call.MethodByName("RunAndReturn")
-				rm.Call([]reflect.Value{r.mkFunc(rm.Type().In(0), su.F, su.Rets)})
+				rm.Call([]reflect.Value{r.mkFunc(rm.Type().In(0), su.F, su.Rets, false)})
 			case "rawreturn":
 				vs := []reflect.Value{}
 				for i, v := range su.Vals {
 					x := reflect.New(anyType).Elem()
 					switch {
 					case v.Prov == "whole":
-						x.Set(r.mkFunc(reflect.FuncOf(ins, outs, mt.IsVariadic()), v.F, v.Rets))
+						x.Set(r.mkFunc(reflect.FuncOf(ins, outs, mt.IsVariadic()), v.F, v.Rets, false))
 					case v.Prov == "legacy":
-						x.Set(r.mkFunc(reflect.FuncOf(ins, outs, false), v.F, v.Rets))
+						x.Set(r.mkFunc(reflect.FuncOf(ins, outs, false), v.F, v.Rets, mt.IsVariadic()))
 					case v.Prov == "res":
-						x.Set(r.mkFunc(reflect.FuncOf(ins, []reflect.Type{outs[v.I]}, mt.IsVariadic()), v.F, v.Rets))
+						x.Set(r.mkFunc(reflect.FuncOf(ins, []reflect.Type{outs[v.I]}, mt.IsVariadic()), v.F, v.Rets, false))
 					case v.Nil:
 					default:
 						var t reflect.Type = anyType
